@@ -147,7 +147,9 @@ impl FileDesc {
                     ));
                 }
 
-                let nb_blocks:u8 = nb_blocks.try_into().map_err(|_| {
+                // Z = 0 is not a valid FEC OTI value, receivers reject it: an empty object is
+                // announced as a single (empty) source block
+                let nb_blocks:u8 = nb_blocks.max(1).try_into().map_err(|_| {
                     FluteError::new(format!(
                         "Object transfer length of {} requires the transmission of {} source blocks, the maximum is {}, your object is incompatible with the FEC parameters of your OTI",
                         object.transfer_length,
@@ -165,7 +167,9 @@ impl FileDesc {
                     ));
                 }
 
-                let nb_blocks:u16 = nb_blocks.try_into().map_err(|_| {
+                // Z = 0 is not a valid FEC OTI value, receivers reject it: an empty object is
+                // announced as a single (empty) source block
+                let nb_blocks:u16 = nb_blocks.max(1).try_into().map_err(|_| {
                     FluteError::new(format!(
                         "Object transfer length of {} requires the transmission of {} source blocks, the maximum is {}, your object is incompatible with the FEC parameters of your OTI",
                         object.transfer_length,
